@@ -21,6 +21,25 @@ def expected_type_and_values(labels_used):
     return str, {x: str(x) for x in labels_used}
 
 
+def typed_labels(labels, universe):
+    """the labels as the library types them for a dataset whose universe is `universe` (abstract ints): all ints
+    when every name of that universe is integer-like, else all strings.  `labels` may be a list or a dict; labels of
+    elements outside the universe (foreign candidates) follow the same type when they can."""
+    items = labels.items() if isinstance(labels, dict) else enumerate(labels)
+    items = list(items)
+    get = dict(items)
+    t, _ = expected_type_and_values([get[x] for x in universe])
+    out = {}
+    for k, v in items:
+        if v is None:
+            continue
+        if t is int:
+            out[k] = int(v) if (isinstance(v, int) or str(v).isdigit()) else 777000 + (k if isinstance(k, int) else 0)
+        else:
+            out[k] = str(v)
+    return out
+
+
 def raw_ranking(r, labels):
     return [set(labels[x] for x in b) for b in r]
 
